@@ -74,8 +74,10 @@ def validated_python_name(name, value):
 def generated_tokens(text):
     try:
         toky = list(tokenize.generate_tokens(_compat.token_io_readline(text)))
-    except SyntaxError as error:
-        # For example an IndentationError for text that spans multiple lines.
+    except (SyntaxError, UnicodeError, SystemError) as error:
+        # For example an IndentationError for text that spans multiple lines; Python 3.12's tokenizer also fails with
+        # a UnicodeDecodeError for a carriage return followed by a non ASCII character and with a SystemError for
+        # certain texts containing a NUL character.
         raise tokenize.TokenError(str(error))
     if len(toky) >= 2 and is_newline_token(toky[-2]) and is_eof_token(toky[-1]):
         # HACK: Remove newline that generated_tokens() adds starting with Python 3.x but not before.
